@@ -1,4 +1,83 @@
 import Driver.Common
+import Driver.Hex
+import AnyioModel.Stream.TextCodecs
 
-/-- placeholder driver: replies `unimplemented` to every request -/
-def main : IO Unit := Driver.serve () (fun s _ => (s, "unimplemented"))
+/-
+md_text: one request line = one whole case
+
+  recv <encoding> <chunks>     chunks as in md_buffered (`-` none, hex, `.` empty chunk)
+      reply: the strings returned by successive `TextReceiveStream.receive()` calls until one
+      raises, each as dot separated hex code points, then `!eos` or `!decode`
+  send <encoding> <items>      `-` or comma separated items, each dot separated hex code
+      points (`_` = empty string)
+      reply: comma separated hex chunks put on the transport (`-` none), then `!ok` / `!encode`
+
+encodings: utf-8 latin-1 utf-16 utf-16-le utf-16-be utf-32 utf-32-le utf-32-be
+-/
+namespace Driver.Text
+open AnyioModel.Stream.Text
+open Driver.Hex
+
+def parseHexNat (s : String) : Option Nat :=
+  if s.isEmpty then none
+  else s.toList.foldlM (fun acc c => do some (16 * acc + (← hexDigit c))) 0
+
+def hexNatAux : Nat → Nat → List Char → List Char
+  | 0, _, acc => acc
+  | f + 1, n, acc => if n < 16 then hexChar n :: acc else hexNatAux f (n / 16) (hexChar (n % 16) :: acc)
+
+def hexNat (n : Nat) : String := String.ofList (hexNatAux 8 n [])
+
+def parseItem (s : String) : Option (List Char) :=
+  if s = "_" then some [] else (s.splitOn ".").mapM fun w => (parseHexNat w).map Char.ofNat
+
+def strOut (s : List Char) : String := ".".intercalate (s.map fun c => hexNat c.toNat)
+
+def errStr : Err → String
+  | .eos => "eos"
+  | .decode => "decode"
+  | .encode => "encode"
+
+def recvWith {σ : Type} (D : Decoder σ Char) (chunks : List (List UInt8)) : String :=
+  let (outs, e) := receiveAll D chunks
+  " ".intercalate (outs.map strOut ++ ["!" ++ errStr e])
+
+def sendWith {τ : Type} (E : Encoder τ Char) (items : List (List Char)) : String :=
+  let (wire, e) := sendAll E E.init items
+  (if wire.isEmpty then "-" else ",".intercalate (wire.map toHex)) ++
+    (match e with | none => " !ok" | some e => " !" ++ errStr e)
+
+def handle (_ : Unit) : List String → Unit × String
+  | ["recv", enc, chunks] =>
+    match parseList parseHex chunks with
+    | none => ((), "bad-op")
+    | some ch =>
+      ((), match enc with
+        | "utf-8" => recvWith utf8Decoder ch
+        | "latin-1" => recvWith latin1Decoder ch
+        | "utf-16" => recvWith (utf16Decoder none) ch
+        | "utf-16-le" => recvWith (utf16Decoder (some true)) ch
+        | "utf-16-be" => recvWith (utf16Decoder (some false)) ch
+        | "utf-32" => recvWith (utf32Decoder none) ch
+        | "utf-32-le" => recvWith (utf32Decoder (some true)) ch
+        | "utf-32-be" => recvWith (utf32Decoder (some false)) ch
+        | _ => "bad-encoding")
+  | ["send", enc, items] =>
+    match parseList parseItem items with
+    | none => ((), "bad-op")
+    | some it =>
+      ((), match enc with
+        | "utf-8" => sendWith utf8Encoder it
+        | "latin-1" => sendWith latin1Encoder it
+        | "utf-16" => sendWith (utf16Encoder none) it
+        | "utf-16-le" => sendWith (utf16Encoder (some true)) it
+        | "utf-16-be" => sendWith (utf16Encoder (some false)) it
+        | "utf-32" => sendWith (utf32Encoder none) it
+        | "utf-32-le" => sendWith (utf32Encoder (some true)) it
+        | "utf-32-be" => sendWith (utf32Encoder (some false)) it
+        | _ => "bad-encoding")
+  | _ => ((), "bad-op")
+
+end Driver.Text
+
+def main : IO Unit := Driver.serve () Driver.Text.handle
